@@ -15,7 +15,7 @@ RULE = ("seeded lint-clean circuits with legal Verilog names (plain / escaped / 
         "distinct = canonical net + flags; non-trivial = some output or blackbox input pin depends on a free signal")
 PROBES = ["no_ports", "unconnected_output_pin", "unconnected_input_pin", "output_is_input", "output_is_const", "escaped_name",
           "multi1", "parity3+_behavioral", "file_path", "behavioral", "structural", "synthetic_lookalike", "bb",
-          "identity_checked"]
+          "identity_checked", "names_harvested_from_earlier_read"]
 ASSUMPTIONS = ["<= 6 startpoints, <= 16 gates; no 'x' constants; module name plain; names never tie_0/tie_1/tie_x "
                "and never Verilog keywords"]
 
@@ -118,6 +118,7 @@ def gen(rng, tier):
             v[2] = False
     net = verilog_names(rng, net, style)
     return {"net": net, "behavioral": rng.random() < 0.5, "via_file": rng.random() < 0.3, "style": style,
+            "harvest": rng.random() < 0.2,
             "path": rng.choice(("/sim/{name}.v", "/sim/dir/{name}.v", "/sim/{name}.txt")),
             "peer": {"seed": rng.getrandbits(32)}}
 
@@ -134,6 +135,30 @@ def run(case, ctx):
             raise Skip("undriven gate")
         if t == "x":
             raise Skip("x constant")
+    if case.get("harvest"):
+        # history: an earlier read in the same interpreter invented names (and_a_b, xor_..., not_...); the circuit
+        # written now has nets called exactly that (a user who saved a read-back circuit, or plain coincidence)
+        import random
+        import re
+        lr = random.Random(case["peer"]["seed"])
+        pre_types = [cg.BlackBox(t, list(i), list(o)) for t, i, o in {v[0]: v for v in net["bbs"].values()}.values()]
+        try:
+            text0 = cg.io.circuit_to_verilog(ref.build(cg, net), behavioral=True)
+            pre = cg.io.verilog_to_circuit(text0, net["name"], blackboxes=pre_types)
+            invented = sorted(n for n in pre.graph.nodes if n not in nodes and re.fullmatch(r"[A-Za-z_][A-Za-z0-9_]*", n)
+                              and not n.startswith("tie_"))   # the reader's reserved constant names stay excluded
+        except Exception:
+            invented = []
+        targets = sorted(n for n, v in nodes.items() if "." not in n and v[0] not in ("0", "1"))
+        if invented and targets:
+            mp = {}
+            for new in lr.sample(invented, min(len(invented), lr.randint(1, 2))):
+                old = lr.choice(targets)
+                if old not in mp:
+                    mp[old] = new
+            net = G.rename(net, mp)
+            nodes = net["nodes"]
+            ctx.probe("names_harvested_from_earlier_read")
     free = ref.free_nodes(net)
     if len(free) > 10:
         raise Skip("too many free signals")
@@ -244,6 +269,8 @@ def sig_key(sig):
 def shrink(case):
     if case["via_file"]:
         yield dict(case, via_file=False)
+    if case.get("harvest"):
+        yield dict(case, harvest=False)
     for net in G.shrink_net(case["net"]):
         if net is None or ref.wiring_violations(net) or ref.is_cyclic(net):
             continue
